@@ -32,7 +32,7 @@ def run(ctx):
     r = ctx.mc('mc/MC_Algebra.tla', 'mc/MC_Algebra_quick.cfg' if q else 'mc/MC_Algebra_thorough.cfg',
                'AlgebraModel refines CliffordRef on every enumerated configuration', extra_args=('-dump', dump))
     for rr in ctx.mc_runs:
-        if rr['violated']:
+        if rr['violated'] and not rr['what'].startswith('control:'):     # control runs are REQUIRED to be refuted
             ctx.report(f"specification invariant violated: {rr['violated']} in {rr['module']}",
                        {'kind': 'spec', 'violated': ','.join(rr['violated'])}, {'run': rr})
     states = tlaparse.parse_dump(dump)
